@@ -337,6 +337,22 @@ def _accepted(box, px, res):
     return first, sorted(acc)
 
 
+def ex_tie(case, obs):
+    from cryocat import cryomap
+
+    n0, t = case
+    res = n0 / t
+    if n0 * 1.0 / res != t:
+        raise HarnessError(f"tie grid: {n0}/{res!r} is not exactly {t}")
+    want = round(t)
+    obs.nontrivial = True
+    got = obs.lib("resolution2pixels", _quiet, cryomap.resolution2pixels, res, n0, 1.0)
+    obs.check(got == want, "resolution2pixels", "pixels-are-round(box*px/res)", f"edge {n0} px 1.0 res {res!r}: {got!r}, expected round({t}) = {want}", "exact-tie")
+    got = obs.lib("get_filter_radius", _quiet, cryomap.get_filter_radius, n0, None, res, 1.0)
+    obs.check(got == want, "get_filter_radius", "pixels-are-round(box*px/res)", f"edge {n0} px 1.0 res {res!r}: {got!r}, expected {want}", "exact-tie")
+    obs.outcome = (n0, t, got)
+
+
 def ex_res(case, obs):
     from cryocat import cryomap
 
@@ -492,6 +508,9 @@ def families(tier, seed):
         expect=("pixels-are-round(box*px/res)", "given-pixels-returned", "resolution-is-box*px/pixels", "resolution-cutoff-equals-pixel-cutoff",
                 "pixel-size-does-not-change-a-pixel-cutoff", "resolution-hard-gain-at-round(box*px/res)", "highpass-is-complement-of-lowpass",
                 "bandpass-is-difference-of-lowpasses")))
+    ties = [(n0, t) for n0 in (8, 12, 16, 20, 28, 48) for t in (0.5, 1.5, 2.5, 3.5, 4.5, 5.5) if n0 * 1.0 / (n0 / t) == t]
+    from ..space import Listed
+    fams.append(Family("resolution-ties", Listed(ties), ex_tie, expect=("pixels-are-round(box*px/res)",)))
     from ..engine import with_array_layouts
     fams.append(with_array_layouts(fams[0], select=lambda c: tuple(c[0]) == (9, 8, 11) and c[1] == 2,
                                    expect=("wave-is-eigenfunction", "highpass-is-complement-of-lowpass")))   # waves, one box and cutoff
